@@ -1,0 +1,46 @@
+//go:build verif
+
+package types
+
+import (
+	"os"
+	"strconv"
+)
+
+// Crash points for the verification harness (build tag verif only).
+//
+// Every call of VerifCrashPoint counts one point; when the environment variable
+// VERIF_CRASH_AT=k is set, the k-th point ends the process at once (os.Exit, no deferred
+// functions, no buffers flushed) - the process "dies" there.
+
+var (
+	verifCrashAt    = verifCrashAtFromEnv()
+	verifCrashCount = 0
+)
+
+const VERIF_CRASH_EXIT_CODE = 77
+
+func verifCrashAtFromEnv() int {
+	k, err := strconv.Atoi(os.Getenv("VERIF_CRASH_AT"))
+	if err != nil {
+		return 0
+	}
+	return k
+}
+
+// VerifCrashPoint is called by the crash points of other packages.
+func VerifCrashPoint() {
+	verifCrashCount++
+	if verifCrashAt > 0 && verifCrashCount == verifCrashAt {
+		os.Exit(VERIF_CRASH_EXIT_CODE)
+	}
+}
+
+// VerifCrashPoints returns the number of points passed so far and resets the counter.
+func VerifCrashPoints() (n int) {
+	n = verifCrashCount
+	verifCrashCount = 0
+	return n
+}
+
+func verifCrashPoint() { VerifCrashPoint() }
